@@ -81,3 +81,16 @@ Fixpoint xtrace (rI rP : bool) (w : xworld) (es : list xevent) : list xobs :=
   | [] => []
   | e :: r => let '(w', l) := xstep rI rP w e in obs_of (accepted w e) w' l :: xtrace rI rP w' r
   end.
+
+(* write admission: (d at lookup, coordinator clock, minTime the implementation used, rows (t, admitted)) *)
+Definition wacase := (Z * Z * Z * list (Z * bool))%type.
+Definition wa_ok (c : wacase) : bool :=
+  match c with (d, nowsec, mt, rows) =>
+    (min_time d nowsec =? mt) && list_eqb Bool.eqb (admit_batch d nowsec (map fst rows)) (map snd rows)
+  end.
+Fixpoint wa_mismatches_from (k : nat) (cs : list wacase) : list nat :=
+  match cs with
+  | [] => []
+  | c :: r => if wa_ok c then wa_mismatches_from (S k) r else k :: wa_mismatches_from (S k) r
+  end.
+Definition wa_mismatches := wa_mismatches_from 0.
